@@ -13,6 +13,14 @@ def sh(cmd):
     p = subprocess.run(cmd, shell=True, cwd=wt, env=env, stdout=subprocess.PIPE, stderr=subprocess.STDOUT, text=True)
     return p.returncode, p.stdout
 def demo():
+    # the demonstration is copied into <crate>/tests/, which does not exist in a clean worktree
+    import shlex
+    toks = shlex.split(meta["demo_cmd"].replace("&&", " && "))
+    for i, t in enumerate(toks):
+        if t == "cp" and i + 2 < len(toks):
+            d = os.path.dirname(toks[i + 2])
+            if d:
+                os.makedirs(os.path.join(wt, d) if not os.path.isabs(d) else d, exist_ok=True)
     return sh(meta["demo_cmd"])
 sh("git checkout -q -- . ")
 rc, _ = sh("git apply " + patch)
